@@ -651,18 +651,25 @@ def file_level_loading(ctx: Ctx, base: dict) -> Dict[str, int]:
         out = os.path.join(d, "out-two-files")
         env = {k: v for k, v in os.environ.items()}
         env.update(PYTHONPATH=REPO, PYTHONHASHSEED="0", PYTHONDONTWRITEBYTECODE="1")
-        r = subprocess.run([gen.PY, "-B", "-m", "generator", "--plugin", "python", "--output-dir", out, "--model", pa, pb], cwd=REPO, env=env, capture_output=True, timeout=900)
-        stats["runs"] += 1
-        if r.returncode != 0:
-            ctx.finding(("model-file-not-loaded", "two-files", "default"), "the document cut into two model files does not generate: " + (r.stderr or r.stdout).decode("utf-8", "replace").strip().splitlines()[-1][:200],
-                        {"model_file": "two-files"})
-        else:
-            with open(os.path.join(out, "lsprotocol", "types.py"), "rb") as f:
-                two = f.read()
-            if outputs.get(("escaped", "default")) is not None and two != outputs[("escaped", "default")]:
-                ctx.finding(("model-files-order", "two-files", "default"),
-                            "`--model zz-first.json aa-second.json` gives another types.py than the uncut document: the files were not merged in the order given (first file extended by the second, metaData of the first)",
-                            {"model_file": "two-files"})
+        # (both ways of naming several files: one option with two values, the option given twice)
+        for spelled, margs in (("--model zz-first.json aa-second.json", ["--model", pa, pb]), ("--model zz-first.json --model aa-second.json", ["--model", pa, "--model", pb]),
+                               ("-m zz-first.json -m aa-second.json --plugin python", None)):
+            tag = "two-files" if margs and len(margs) == 3 else "two-files-option-repeated"
+            cmd = [gen.PY, "-B", "-m", "generator", "--plugin", "python", "--output-dir", out] + margs if margs else \
+                  [gen.PY, "-B", "-m", "generator", "-m", pa, "-m", pb, "--plugin", "python", "--output-dir", out]
+            shutil.rmtree(out, ignore_errors=True)
+            r = subprocess.run(cmd, cwd=REPO, env=env, capture_output=True, timeout=900)
+            stats["runs"] += 1
+            if r.returncode != 0:
+                ctx.finding(("model-file-not-loaded", tag, "default"), f"the document cut into two model files ({spelled}) does not generate: " + (r.stderr or r.stdout).decode("utf-8", "replace").strip().splitlines()[-1][:200],
+                            {"model_file": tag})
+            else:
+                with open(os.path.join(out, "lsprotocol", "types.py"), "rb") as f:
+                    two = f.read()
+                if outputs.get(("escaped", "default")) is not None and two != outputs[("escaped", "default")]:
+                    ctx.finding(("model-files-order", tag, "default"),
+                                f"`{spelled}` gives another types.py than the uncut document: the files were not merged in the order given (first file extended by the second, metaData of the first)",
+                                {"model_file": tag})
         for ptag in list(paths) + ["committed"]:
             ref_key = ("escaped", "default") if ptag != "committed" else ("committed", "default")
             for etag in envs:
